@@ -70,20 +70,20 @@ def r2(ctx):
     cl = conf[0]
     skip = [s for s in cl.body if isinstance(s, ast.If) and isinstance(s.body[0], ast.Continue)]
     ok = len(skip) == 1 and u(skip[0].test) in ("len(path_set) == 1", "len(path_set) < 2", "len(path_set) <= 1")
-    ctx.check(ok, "report:find_duplicates:singletons-skipped", f"only buckets with a single file may be skipped: {[u(s.test) for s in skip]}", f.loc(cl))
+    ctx.soft(ok, "report:find_duplicates:singletons-skipped", f"only buckets with a single file may be skipped: {[u(s.test) for s in skip]}", f.loc(cl))
     emit = [s for s in ast.walk(cl) if isinstance(s, ast.If) and any(isinstance(x, ast.Call) and u(x.func).endswith(".append") for x in ast.walk(s))]
     ok = len(emit) == 1 and u(emit[0].test) in ("len(matches) > 1", "len(matches) >= 2")
     ctx.check(ok, "report:find_duplicates:groups-of-two-or-more", f"a group must be reported iff it has at least two members: {[u(s.test) for s in emit]}", f.loc(cl))
     # partition loop: every remaining file is compared with the pivot; matched files are removed afterwards
     wl = [n for n in ast.walk(cl) if isinstance(n, ast.While)]
     ok = len(wl) == 1 and u(wl[0].test) in ("len(remaining) > 1", "len(remaining) >= 2")
-    ctx.check(ok, "report:find_duplicates:partition-loop", "the partition loop must run while at least two candidates remain", f.loc(cl))
+    ctx.soft(ok, "report:find_duplicates:partition-loop", "the partition loop must run while at least two candidates remain", f.loc(cl))
     if ok:
         inner = [n for n in wl[0].body if isinstance(n, ast.For)]
         ok2 = len(inner) == 1 and u(inner[0].iter) == "remaining"
-        ctx.check(ok2, "report:find_duplicates:compare-with-every-remaining", "the pivot must be compared with every remaining file", f.loc(wl[0]))
+        ctx.soft(ok2, "report:find_duplicates:compare-with-every-remaining", "the pivot must be compared with every remaining file", f.loc(wl[0]))
         rem = [s for s in wl[0].body if isinstance(s, ast.Expr) and u(s.value) == "remaining.difference_update(matches)"]
-        ctx.check(len(rem) == 1, "report:find_duplicates:matched-removed-after-scan", "matched files must be removed from the candidates after the scan (`remaining.difference_update(matches)`)", f.loc(wl[0]))
+        ctx.soft(len(rem) == 1, "report:find_duplicates:matched-removed-after-scan", "matched files must be removed from the candidates after the scan (`remaining.difference_update(matches)`)", f.loc(wl[0]))
     # duplicates(): every member printed
     d = repo.func("report", "duplicates")
     lp2 = [n for n in walk_no_nested(d.node) if isinstance(n, ast.For) and "enumerate(confirmed_matches)" in u(n.iter)]
@@ -91,9 +91,9 @@ def r2(ctx):
     if ok:
         inner = [n for n in lp2[0].body if isinstance(n, ast.For)]
         ok = len(inner) == 1 and u(inner[0].iter) in ("sorted(matches)", "matches") and any(isinstance(x, ast.Call) and callee(x) == "print" and u(inner[0].target) in u(x) for x in ast.walk(inner[0]))
-    ctx.check(ok, "report:duplicates:every-member-printed", "every member of every group must be printed", d.loc())
+    ctx.soft(ok, "report:duplicates:every-member-printed", "every member of every group must be printed", d.loc())
     src = [s for s in d.node.body if isinstance(s, ast.Assign) and u(s.value) == f"find_duplicates({d.params[0]})"]
-    ctx.check(len(src) == 1, "report:duplicates:uses-find_duplicates", "the report must print what find_duplicates() found for the given code base", d.loc())
+    ctx.soft(len(src) == 1, "report:duplicates:uses-find_duplicates", "the report must print what find_duplicates() found for the given code base", d.loc())
     ctx.floor(9)
 
 
